@@ -35,7 +35,7 @@ from sim.core import EventLog, digest_of, fbits, violation
 PROPERTY = "C13"
 ISOLATE = True
 TIERS = {
-    "quick": {"runs": 60000, "budget_s": 33, "timeout_s": 40, "chunk": 32, "det_sample": 48, "det_runs": 300},
+    "quick": {"runs": 8000, "budget_s": 70, "timeout_s": 40, "chunk": 32, "det_sample": 48, "det_runs": 300},
     "thorough": {"runs": 3000000, "budget_s": 570, "timeout_s": 120, "chunk": 32, "det_sample": 64, "det_runs": 1000},
 }
 RULE = ("seeded plans: (grid: polar / spherical with or without hole, cylindrical, anisotropic Cartesian, one cell, unit; "
